@@ -943,6 +943,50 @@ func (sc *scenario) round(rn int, rd Round) error {
 		}
 	}
 
+	// ---- a handshaken stream writes like a fresh one ----
+	// (also after an earlier round on the same stream left a write in flight, see the end of this function)
+	fresh, probeWire := "", 0
+	if herr == nil && panicked == "" && p.Kind == "resp" && p.Closept == "none" {
+		pl := []byte{'W', byte('0' + rn)}
+		func() {
+			defer func() {
+				if r := recover(); r != nil {
+					fresh = "write-panic"
+				}
+			}()
+			if p.Mode == "sync" {
+				if err := sc.ws.Write(pl, websocket.TypeText); err != nil {
+					fresh = "write-error"
+				} else {
+					probeWire = 6 + len(pl)
+				}
+				return
+			}
+			done, werr := false, error(nil)
+			sc.ws.AsyncWrite(pl, websocket.TypeText, func(err error) { done, werr = true, err })
+			for k := 0; k < 1500 && !done && sc.cbPanic == ""; k++ {
+				func() {
+					defer func() {
+						if r := recover(); r != nil {
+							sc.cbPanic = fmt.Sprint(r)
+						}
+					}()
+					_ = sc.ioc.RunOneFor(2 * time.Millisecond)
+				}()
+			}
+			switch {
+			case sc.cbPanic != "":
+				fresh, sc.cbPanic = "write-panic", ""
+			case !done:
+				fresh = "write-stuck"
+			case werr != nil:
+				fresh = "write-error"
+			default:
+				probeWire = 6 + len(pl)
+			}
+		}()
+	}
+
 	// ---- frames after the blank line ----
 	var frames []frame
 	if p.Kind == "resp" {
@@ -951,7 +995,7 @@ func (sc *scenario) round(rn int, rd Round) error {
 	var msgs []Ev
 	end := base
 	end.Ev = "End"
-	if herr == nil {
+	if herr == nil && fresh != "write-stuck" { // (with a stuck flush the reads would be parked behind it as well)
 		var rerr error
 		stopped := false
 		for len(msgs) < 8 {
@@ -1017,9 +1061,17 @@ func (sc *scenario) round(rn int, rd Round) error {
 			end.Probe = "connection-open"
 		}
 	}
+	if herr == nil && fresh != "" {
+		end.Probe = fresh
+	}
 	end.Ndeliv = len(msgs)
 	end.State = sc.ws.State().String()
 	end.Pending = sc.ws.Pending()
+	if herr == nil && p.Mode != "sync" && sc.ws.State() == websocket.StateActive {
+		// the application has a write in flight when it gives the connection up and connects again
+		// (the transport write has not completed: nothing polls between here and the next handshake)
+		sc.ws.AsyncWrite([]byte("tail"), websocket.TypeText, func(error) {})
+	}
 
 	// the driver hangs up; the server then sees EOF and reports
 	_ = sc.ws.CloseNextLayer()
@@ -1058,6 +1110,9 @@ func (sc *scenario) round(rn int, rd Round) error {
 			rs.Note += fmt.Sprintf("model R=%d real R=%d; ", rd.R, rep.rlen)
 		}
 		end.Cbytes = rep.cbytes
+		if probeWire > 0 && rep.cbytes >= probeWire {
+			end.Cbytes = rep.cbytes - probeWire // the driver's own write of this round
+		}
 		if rep.stalled {
 			res.Err = "stalled"
 		}
